@@ -65,6 +65,49 @@ Proof.
   - intros Hy. destruct (IH Hy) as [x' [Hin Hx]]. exists x'. split; [right; exact Hin|exact Hx].
 Qed.
 
+(* strings.EqualFold (on the modelled domain) is never narrower than the A–Z fold: names equal under
+   the key's fold are EqualFold *)
+Lemma fold_byte_high c x y : 122 < c -> fold_byte x = fold_byte y -> (x =? c) = (y =? c).
+Proof.
+  intros Hc He. unfold fold_byte in He.
+  destruct ((65 <=? x) && (x <=? 90)) eqn:Ex; destruct ((65 <=? y) && (y <=? 90)) eqn:Ey;
+    try (apply andb_prop in Ex; destruct Ex as [Ex1 Ex2]; apply N.leb_le in Ex1, Ex2);
+    try (apply andb_prop in Ey; destruct Ey as [Ey1 Ey2]; apply N.leb_le in Ey1, Ey2).
+  - assert (x = y) by lia. subst. reflexivity.
+  - destruct (x =? c) eqn:E1; destruct (y =? c) eqn:E2; try reflexivity;
+      try (apply N.eqb_eq in E1); try (apply N.eqb_eq in E2); lia.
+  - destruct (x =? c) eqn:E1; destruct (y =? c) eqn:E2; try reflexivity;
+      try (apply N.eqb_eq in E1); try (apply N.eqb_eq in E2); lia.
+  - subst. reflexivity.
+Qed.
+
+Lemma fold_norm_congr n : forall a b, (length a <= n)%nat -> fold a = fold b -> fold (fold_norm a) = fold (fold_norm b).
+Proof.
+  induction n as [|n IH]; intros a b Hl He.
+  - destruct a; [|cbn in Hl; lia]. destruct b; [reflexivity|discriminate].
+  - destruct a as [|x r], b as [|x' r']; try discriminate; [reflexivity|].
+    cbn [fold map] in He. injection He as Hx Hr. cbn [length] in Hl.
+    destruct r as [|y r2], r' as [|y' r2']; try discriminate.
+    + cbn. rewrite Hx. reflexivity.
+    + cbn [map] in Hr. injection Hr as Hy Hr2.
+      cbn [fold_norm].
+      rewrite (fold_byte_high 197 x x'), (fold_byte_high 191 y y') by (assumption || lia).
+      destruct ((x' =? 197) && (y' =? 191)).
+      * cbn [fold map]. f_equal. apply IH; [cbn [length] in Hl; lia|exact Hr2].
+      * destruct r2 as [|z r3], r2' as [|z' r3']; try discriminate.
+        -- cbn [fold_norm fold map]. rewrite Hx, Hy. reflexivity.
+        -- cbn [map] in Hr2. injection Hr2 as Hz Hr3.
+           rewrite (fold_byte_high 226 x x'), (fold_byte_high 132 y y'), (fold_byte_high 170 z z') by (assumption || lia).
+           destruct ((x' =? 226) && (y' =? 132) && (z' =? 170)).
+           ++ cbn [fold map]. f_equal. apply IH; [cbn [length] in Hl; lia|exact Hr3].
+           ++ cbn [fold map]. f_equal; [exact Hx|].
+              apply (IH (y :: z :: r3) (y' :: z' :: r3')); [cbn [length] in *; lia|].
+              cbn [fold map]. rewrite Hy, Hz. f_equal. f_equal. exact Hr3.
+Qed.
+
+Lemma fold_eq_equal_fold a b : fold a = fold b -> bytes_eqb (fold (fold_norm a)) (fold (fold_norm b)) = true.
+Proof. intros He. apply bytes_eqb_eq. apply (fold_norm_congr (length a)); [lia|exact He]. Qed.
+
 (* what the verifiers establish *)
 Lemma entry_matches_preimage_spec e qt qc cd p :
   entry_matches_preimage e qt qc cd p = true ->
@@ -454,10 +497,10 @@ Section Routes.
   End SaltedCut.
 
   (* ---- replacement inherits the partition of the entry it replaces *)
-  Lemma replace_inherits_partition_lemma (s s' : store) k expected rq id alias :
-    replace_if_current K K_eqb k expected rq id alias s = (s', true) ->
+  Lemma replace_inherits_partition_lemma (s s' : store) k expected rq id alias hasq plain :
+    replace_if_current K K_eqb k expected rq id alias hasq plain s = (s', true) ->
     exists cur, kget K K_eqb k (st_pos K s) = Some cur /\ entry_same cur expected = true /\
-    st_pos K s' = kset K K_eqb k (mk_entry rq (e_cd expected) (e_scope expected) id alias) (st_pos K s) /\
+    st_pos K s' = kset K K_eqb k (mk_entry rq (e_cd expected) (e_scope expected) id alias hasq plain) (st_pos K s) /\
     st_neg K s' = st_neg K s /\ st_fail K s' = st_fail K s.
   Proof.
     unfold replace_if_current. destruct (kget K K_eqb k (st_pos K s)) as [cur|]; [|discriminate].
@@ -465,8 +508,8 @@ Section Routes.
     intros Hr. inversion Hr; subst s'. exists cur. repeat split; try reflexivity. exact E.
   Qed.
 
-  Lemma replace_declined_unchanged (s s' : store) k expected rq id alias :
-    replace_if_current K K_eqb k expected rq id alias s = (s', false) -> s' = s.
+  Lemma replace_declined_unchanged (s s' : store) k expected rq id alias hasq plain :
+    replace_if_current K K_eqb k expected rq id alias hasq plain s = (s', false) -> s' = s.
   Proof.
     unfold replace_if_current. destruct (kget K K_eqb k (st_pos K s)) as [cur|].
     - destruct (entry_same cur expected); intros Hr; inversion Hr; reflexivity.
@@ -583,7 +626,7 @@ Section Routes.
     unfold purge_match. rewrite Hsc. cbn [normalize_scope]. apply N.eqb_neq in Hb. rewrite Hb.
     destruct (q_name (e_q e)) eqn:En; [contradiction|]. cbn [negb andb].
     rewrite Hty, Ht, Hcl, Hc, !N.eqb_refl. cbn [andb].
-    unfold equal_fold_ascii. apply bytes_eqb_eq. rewrite Hf. exact Hn.
+    unfold equal_fold_ascii. apply fold_eq_equal_fold. rewrite Hf. exact Hn.
   Qed.
 
   (* purge removes every variant: afterwards no exact-answer route hits for the
@@ -719,7 +762,7 @@ Definition const_hash (_ : bytes) : unit := tt.
 Definition ex_q1 : question := mk_q [97;46] 1 1.            (* a. A IN *)
 Definition ex_q2 : question := mk_q [98;46] 1 1.            (* b. A IN *)
 Definition ex_store : store unit :=
-  set_from_response unit unit_eqb tt ex_q1 false None 7 None (empty_store unit).
+  set_from_response unit unit_eqb tt ex_q1 false None 7 None true true (empty_store unit).
 
 Example collision_hit_own_question :
   option_map e_id (serve_msg_exact unit unit_eqb const_hash ex_store (mk_q [65;46] 1 1) false None) = Some 7.
@@ -737,7 +780,7 @@ Proof. vm_compute. repeat split; reflexivity. Qed.
 Definition len_hash (p : bytes) : N := len p.
 Definition ex_scoped : store N :=
   set_from_response N N.eqb (len_hash (cachekey_pre ex_q1 false (Some (mk_scope true 16 [10;1;0;0]))))
-    ex_q1 false (Some (mk_scope true 16 [10;1;2;3])) 9 None (empty_store N).
+    ex_q1 false (Some (mk_scope true 16 [10;1;2;3])) 9 None true true (empty_store N).
 Example scoped_collision :
   option_map e_id (serve_msg_exact N N.eqb len_hash ex_scoped ex_q1 false (Some (mk_scope true 24 [10;1;200;0]))) = Some 9 /\
   serve_msg_exact N N.eqb len_hash ex_scoped ex_q1 false (Some (mk_scope true 24 [10;2;200;0])) = None /\
@@ -751,8 +794,8 @@ Proof. vm_compute. repeat split; reflexivity. Qed.
 Definition ex_ch_alias : store bytes :=
   let alias_q := mk_q [97;46] 1 3 in                       (* a. A CH *)
   let target_in := mk_q [116;46] 1 1 in                    (* t. A IN *)
-  set_from_response bytes bytes_eqb (cachekey_pre target_in false None) target_in false None 2 None
-    (set_from_response bytes bytes_eqb (cachekey_pre alias_q false None) alias_q false None 1 (Some [1;116;0]) (empty_store bytes)).
+  set_from_response bytes bytes_eqb (cachekey_pre target_in false None) target_in false None 2 None true true
+    (set_from_response bytes bytes_eqb (cachekey_pre alias_q false None) alias_q false None 1 (Some [1;116;0]) false true (empty_store bytes)).
 Example msg_chase_keeps_class_example :
   option_map (fun e => map e_id (msg_chase bytes bytes_eqb (fun p => p) ex_ch_alias 10 1 3 false e))
              (serve_msg_exact bytes bytes_eqb (fun p => p) ex_ch_alias (mk_q [97;46] 1 3) false None) = Some [] /\
